@@ -1,7 +1,8 @@
 (* C08 — limb representation: normalisation, shifts and integer encoding are exact.
    This file holds only pinned statements, `exact` proofs and Print Assumptions. *)
 From PV Require Import Base.MachineInt Model.Znx Model.Limbs Model.C08Oracle Proofs.ZnxDigit Proofs.C08Steps
-  Proofs.C08Chain Proofs.C08Loops Proofs.C08Value Proofs.C08Normalize.
+  Proofs.C08Chain Proofs.C08Loops Proofs.C08Value Proofs.C08Normalize Proofs.C08Shift Proofs.C08Rsh
+  Proofs.C08ShiftValue Proofs.C08RshValue.
 Open Scope Z_scope.
 
 Theorem C08_digit_spec : forall w b x : Z, 1 <= b <= w -> get_digit w b x = wrap b x.
@@ -189,3 +190,139 @@ Proof.
   - repeat constructor; cbn; lia.
   - apply (HV 100). cbn. lia.
 Qed.
+
+(* ---------------- in-place normalisation and the shift family (per coefficient, w = 64) ---------------- *)
+(* hr62 l := Forall (fun x => |x| <= 2^62) l : inputs need not be normalised *)
+
+Theorem C08_normalize_assign_value : forall b : Z, 1 <= b <= 62 -> forall r0 : list Z, hr62 r0 ->
+  let out := normalize_assign 64 b r0 in
+  length out = length r0 /\ Forall (in_range b) out /\
+  forall P, 2 * zn (length r0) * b <= P -> tor_abs P (val_scaled P b out - val_scaled P b r0) = 0.
+Proof. exact normalize_assign_value. Qed.
+Print Assumptions C08_normalize_assign_value.
+
+Example C08_normalize_assign_value_ex :
+  let r0 := [2 ^ 62; - 2 ^ 62; 987654321987; -1] in
+  let out := normalize_assign 64 7 r0 in
+  Forall (in_range 7) out /\ tor_abs 60 (val_scaled 60 7 out - val_scaled 60 7 r0) = 0.
+Proof.
+  intros r0 out.
+  destruct (C08_normalize_assign_value 7 ltac:(lia) r0) as (_ & HB & HV).
+  - repeat constructor; cbn; lia.
+  - split; [exact HB|]. apply HV. cbn. lia.
+Qed.
+
+Theorem C08_lsh_assign_value : forall b : Z, 1 <= b <= 62 -> forall (k : Z) (r0 : list Z), 0 <= k -> hr62 r0 ->
+  let out := lsh_assign 64 b k r0 in
+  length out = length r0 /\ Forall (in_range b) out /\
+  forall P, 2 * zn (length r0) * b + k <= P ->
+    tor_abs P (val_scaled P b out - val_scaled (P + k) b r0) = 0.
+Proof. exact lsh_assign_value. Qed.
+Print Assumptions C08_lsh_assign_value.
+
+Theorem C08_lsh_value : forall b : Z, 1 <= b <= 62 -> forall (ov : bool) (k : Z) (a r0 : list Z),
+  0 <= k -> hr62 a -> (ov = false -> hr62 r0) ->
+  let out := lsh 64 ov b k a r0 in
+  length out = length r0 /\ (ov = true -> Forall (in_range b) out) /\
+  forall P, zn (length r0) * b + zn (length a) * b + k <= P ->
+    let D := tor_abs P (val_scaled P b out - (if ov then 0 else val_scaled P b r0)
+                        - val_scaled (P + k) b a) in
+    D <= 2 ^ (P - zn (length r0) * b) /\ (zn (length a) * b - k <= zn (length r0) * b -> D = 0).
+Proof. exact lsh_value. Qed.
+Print Assumptions C08_lsh_value.
+
+Example C08_lsh_value_ex :
+  let a := [2 ^ 62; -5; 123456789012; - 2 ^ 62] in
+  let r0 := [11; - 2 ^ 62] in
+  let out := lsh 64 false 12 17 a r0 in
+  tor_abs 100 (val_scaled 100 12 out - val_scaled 100 12 r0 - val_scaled (100 + 17) 12 a) <= 2 ^ (100 - 2 * 12).
+Proof.
+  intros a r0 out.
+  destruct (C08_lsh_value 12 ltac:(lia) false 17 a r0) as (_ & _ & HV).
+  - lia.
+  - repeat constructor; cbn; lia.
+  - intros _. repeat constructor; cbn; lia.
+  - apply (HV 100). cbn. lia.
+Qed.
+
+Theorem C08_lsh_sub_value : forall b : Z, 1 <= b <= 62 -> forall (k : Z) (a r0 : list Z),
+  0 <= k -> hr62 a -> hr62 r0 ->
+  let out := lsh_sub 64 b k a r0 in
+  length out = length r0 /\
+  forall P, zn (length r0) * b + zn (length a) * b + k <= P ->
+    let D := tor_abs P (val_scaled P b out - val_scaled P b r0 + val_scaled (P + k) b a) in
+    D <= 2 ^ (P - zn (length r0) * b) /\ (zn (length a) * b - k <= zn (length r0) * b -> D = 0).
+Proof. exact lsh_sub_value. Qed.
+Print Assumptions C08_lsh_sub_value.
+
+Theorem C08_rsh_assign_value : forall b : Z, 1 <= b <= 62 -> forall (k : Z) (r0 : list Z), 0 <= k -> hr62 r0 ->
+  let out := rsh_assign 64 b k r0 in
+  length out = length r0 /\ Forall (in_range b) out /\
+  forall P, 2 * zn (length r0) * b + k <= P ->
+    let D := tor_abs P (val_scaled P b out - val_scaled (P - k) b r0) in
+    D <= 2 ^ (P - zn (length r0) * b) /\ (k = 0 -> D = 0).
+Proof. exact rsh_assign_value. Qed.
+Print Assumptions C08_rsh_assign_value.
+
+Theorem C08_rsh_ov_value : forall b : Z, 1 <= b <= 62 -> forall (k : Z) (a r0 : list Z), 0 <= k -> hr62 a ->
+  let out := rsh 64 true b k a r0 in
+  length out = length r0 /\ Forall (in_range b) out /\
+  forall P, zn (length r0) * b + zn (length a) * b + k <= P ->
+    let D := tor_abs P (val_scaled P b out - val_scaled (P - k) b a) in
+    D <= 2 ^ (P - zn (length r0) * b) /\ (zn (length a) * b + k <= zn (length r0) * b -> D = 0).
+Proof. exact rsh_ov_value. Qed.
+Print Assumptions C08_rsh_ov_value.
+
+Theorem C08_rsh_add_value : forall b : Z, 1 <= b <= 62 -> forall (k : Z) (a r0 : list Z),
+  0 <= k -> hr62 a -> hr62 r0 ->
+  let out := rsh 64 false b k a r0 in
+  length out = length r0 /\
+  forall P, zn (length r0) * b + zn (length a) * b + k <= P ->
+    let D := tor_abs P (val_scaled P b out - val_scaled P b r0 - val_scaled (P - k) b a) in
+    D <= 2 ^ (P - zn (length r0) * b) /\ (zn (length a) * b + k <= zn (length r0) * b -> D = 0).
+Proof. exact rsh_add_value. Qed.
+Print Assumptions C08_rsh_add_value.
+
+Theorem C08_rsh_sub_value : forall b : Z, 1 <= b <= 62 -> forall (k : Z) (a r0 : list Z),
+  0 <= k -> hr62 a -> hr62 r0 ->
+  let out := rsh_sub 64 b k a r0 in
+  length out = length r0 /\
+  forall P, zn (length r0) * b + zn (length a) * b + k <= P ->
+    let D := tor_abs P (val_scaled P b out - val_scaled P b r0 + val_scaled (P - k) b a) in
+    D <= 2 ^ (P - zn (length r0) * b) /\ (zn (length a) * b + k <= zn (length r0) * b -> D = 0).
+Proof. exact rsh_sub_value. Qed.
+Print Assumptions C08_rsh_sub_value.
+
+Example C08_rsh_sub_value_ex :
+  let a := [2 ^ 62; -5; 123456789012; - 2 ^ 62] in
+  let r0 := [11; - 2 ^ 62] in
+  let out := rsh_sub 64 12 41 a r0 in
+  tor_abs 120 (val_scaled 120 12 out - val_scaled 120 12 r0 + val_scaled (120 - 41) 12 a) <= 2 ^ (120 - 2 * 12).
+Proof.
+  intros a r0 out.
+  destruct (C08_rsh_sub_value 12 ltac:(lia) 41 a r0) as (_ & HV).
+  - lia.
+  - repeat constructor; cbn; lia.
+  - repeat constructor; cbn; lia.
+  - apply (HV 120). cbn. lia.
+Qed.
+
+(* closed forms by index (the output digits are a window of the balanced expansion of the input) *)
+Theorem C08_lsh_nth : forall b : Z, 1 <= b <= 62 -> forall (ov : bool) (k : Z) (a r0 : list Z),
+  0 <= k -> hrl a -> (ov = false -> hrl r0) ->
+  let out := lsh 64 ov b k a r0 in
+  length out = length r0 /\
+  forall i, (i < length r0)%nat ->
+    nthZ out i = (if ov then 0 else nthZ r0 i)
+                 + dgz b (vin a (k mod b)) (zn (length a) - k / b - 1 - zn i).
+Proof. exact lsh_nth. Qed.
+Print Assumptions C08_lsh_nth.
+
+Theorem C08_rsh_ov_nth : forall b : Z, 1 <= b <= 62 -> forall (k : Z) (a r0 : list Z), 0 <= k -> hrl a ->
+  let steps := fst (rsh_params b k) in let lsh := snd (rsh_params b k) in
+  let out := rsh 64 true b k a r0 in
+  length out = length r0 /\
+  forall i, (i < length r0)%nat ->
+    nthZ out i = dgz b (vin a lsh) (zn (length a) - (- zn steps) - 1 - zn i).
+Proof. exact rsh_ov_nth. Qed.
+Print Assumptions C08_rsh_ov_nth.
